@@ -14,13 +14,14 @@ import VyxalModel.Model.Lists
 import VyxalModel.Model.Vectorise
 import VyxalModel.Model.Streams
 import VyxalModel.Gen.Codepage
+import VyxalModel.Gen.Dictionary
 /-! Line protocol: `cmd<TAB>argument`; one answer line per request. -/
 open Vy
 
 def genEnv (dict : Bool) : TEnv :=
   { elements := Gen.elements, modifiers := Gen.modifiers, codepage := Gen.codepage, numCompress := Gen.numCompress,
     strCompress := Gen.strCompress, base27 := Gen.base27, compression := Gen.compression, dictCompress := dict,
-    small := [], contents := [] }
+    small := Gen.smallDictionary, contents := Gen.dictionaryContents }
 
 def showTErr : TErr → String
   | .badTemplate k => "ERR badTemplate " ++ strS k
